@@ -1,7 +1,7 @@
 """C20 - the HTTP gateway forwards only authorised requests, and forwards them faithfully.
 
 MC    : Gateway.tla (Decide / Forward over the whole request space; OnlyAuthorised, InvokesOnlyNamed).
-Gen   : Gen_Gateway.tla enumerates the request space with irrelevant fields folded (10 498 cases).
+Gen   : Gen_Gateway.tla enumerates the request space with irrelevant fields folded (11 730 cases).
 Drive : the real WSGI callable pyro_app, configured per case (key, pattern), in front of a real name server object and real
         target objects in a real daemon on the in-memory transport.  Every Pyro message the gateway sends is counted, every
         execution of a target member is logged with object, member, arguments and returned value.
@@ -73,6 +73,7 @@ def build_request(r, i):
     name, member = NAMES[r["name"]], member_text(r, i)
     path = {"root": "/", "pyro_noslash": "/pyro", "index": "/pyro/", "one_seg": "/pyro/" + name, "obj_trailing": "/pyro/" + name + "/",
             "call": "/pyro/%s/%s" % (name, member), "extra_seg": "/pyro/%s/x/%s" % (name, member),
+            "lead_seg": ("/pyro//%s/%s", "/pyro/./%s/%s", "/pyro///%s/%s", "/pyro/.//%s/%s")[i % 4] % (name, member),
             "outside": ("/other/%s/%s", "/pyrox/%s/%s", "/Pyro/%s/%s")[i % 3] % (name, member)}[r["path"]]
     items = list(PARAMS[r["params"]])
     wrong = WRONG_KEYS[i % len(WRONG_KEYS)]
@@ -243,8 +244,8 @@ def run(ctx):
                 raise util.MachineryError("Matches table disagrees with the concrete names: %s %s" % (p, n))
     tlc.mc(ctx, "Gateway", cfg="MC_Gateway.cfg")
     cases = tlc.gen(ctx, "Gen_Gateway", cfg="Gen_Gateway.cfg")
-    if len(cases) != 10498:
-        raise util.MachineryError("expected 10498 cases, got %d" % len(cases))
+    if len(cases) != 11730:
+        raise util.MachineryError("expected 11730 cases, got %d" % len(cases))
     cases.sort(key=lambda c: json.dumps(c["r"], sort_keys=True))
     if ctx.quick:
         cases = [c for i, c in enumerate(cases) if c["decide"] in ("redirect", "notfound", "index", "preflight") or (i + ctx.seed) % 3 == 0]
